@@ -239,8 +239,9 @@ def native_end_to_end(rng, rng_v, maxint, ns, window, nshank_assign):
     try:
         perm = None
         if nshank_assign is not None:
-            perm = rng.integers(0, nshank_assign, 384)
-            perm[:nshank_assign] = np.arange(nshank_assign)
+            ids = np.sort(rng.choice(4, nshank_assign, replace=False))       # any subset of the four shanks, e.g. {1, 3}
+            perm = ids[rng.integers(0, nshank_assign, 384)]
+            perm[:nshank_assign] = ids
         ap, D = _mk_np24(d, rng_v, maxint, ns, rng=rng, shank_perm=perm)
         orig_meta = open(ap[:-3] + "meta").read()
         orig_md = spikeglx.read_meta_data(ap[:-3] + "meta")
@@ -291,7 +292,7 @@ def b_native(B):
         rng_v, maxint = GAINS[t % len(GAINS)]
         ns = int(rng.integers(1300, 5000))
         window = int(rng.choice([600, 1200, 30000]))
-        nsh = [None, 1, 2, 3, 4][t % 5]
+        nsh = [2, None, 1, 3, 4][t % 5]
         bad = native_end_to_end(rng, rng_v, maxint, ns, window, nsh)
         B.case(("e2e", t, ns, window, nsh), not bad, detail=bad[:4], inputs={"kind": "e2e", "ns": ns, "window": window, "nshanks": nsh})
     # savedChans subset string <-> channel list
